@@ -103,32 +103,67 @@ Proof.
 Qed.
 
 (* ------------------------------------------------------------------ the address-table shrink *)
-Lemma shrink_last_app l1 t tab used : sid t = tab ->
+Lemma shrink_last_app l1 t tab used : sid t = tab -> (forall x, In x l1 -> sid x <> tab) ->
   shrink_last (l1 ++ [t]) tab used =
   (l1 ++ [set_sizes t used used (firstn (Z.to_nat used) (sdata t))], svsize t - used).
 Proof.
-  intros Et. induction l1 as [|a r IH].
+  intros Et Hu. induction l1 as [|a r IH].
   - cbn [app shrink_last]. rewrite Et, Z.eqb_refl. reflexivity.
   - cbn [app]. destruct (r ++ [t]) as [|b r'] eqn:Er; [destruct r; discriminate|].
-    cbn [shrink_last]. cbn [shrink_last] in IH. rewrite IH. reflexivity.
+    cbn [shrink_last]. cbn [shrink_last] in IH. rewrite IH by (intros x Hx; apply Hu; right; assumption).
+    destruct (Z.eqb_spec (sid a) tab) as [E|N]; [exfalso; apply (Hu a); [left; reflexivity|assumption]|reflexivity].
 Qed.
 
-Lemma shrink_last_other l1 t tab used : sid t <> tab -> shrink_last (l1 ++ [t]) tab used = (l1 ++ [t], 0).
+(* the table somewhere else (or absent): only its buffer size changes (to at most the reservation), nothing is reported *)
+Definition tab_buffer_set (tab used : Z) (s s' : section) : Prop :=
+  s' = s \/ (sid s = tab /\ s' = set_sizes s used (svsize s) (firstn (Z.to_nat used) (sdata s))).
+
+Lemma shrink_last_other l1 t tab used : sid t <> tab ->
+  exists l1', shrink_last (l1 ++ [t]) tab used = (l1' ++ [t], 0) /\ Forall2 (tab_buffer_set tab used) l1 l1'.
 Proof.
   intros Et. induction l1 as [|a r IH].
-  - cbn [app shrink_last]. destruct (Z.eqb_spec (sid t) tab); [contradiction|reflexivity].
-  - cbn [app]. destruct (r ++ [t]) as [|b r'] eqn:Er; [destruct r; discriminate|].
-    cbn [shrink_last]. cbn [shrink_last] in IH. rewrite IH. reflexivity.
+  - exists []. cbn [app shrink_last]. destruct (Z.eqb_spec (sid t) tab); [contradiction|]. split; [reflexivity|constructor].
+  - destruct IH as [r1 [E F]]. cbn [app]. destruct (r ++ [t]) as [|b r'] eqn:Er; [destruct r; discriminate|].
+    cbn [shrink_last]. cbn [shrink_last] in E. rewrite E.
+    eexists (_ :: r1). split; [reflexivity|]. constructor; [|assumption].
+    destruct (Z.eqb_spec (sid a) tab); [right; split; [assumption|reflexivity]|left; reflexivity].
+Qed.
+
+(* code_size only looks at real sizes and alignments *)
+Lemma cs_walk_same_sizes c l l' : Forall2 (fun a b => real_size b = real_size a /\ salign b = salign a) l l' ->
+  forall off ovf, cs_walk c off ovf l' = cs_walk c off ovf l.
+Proof.
+  intros H. induction H as [|a b la lb [Er Ea] _ IH]; intros off ovf; cbn [cs_walk]; [reflexivity|].
+  rewrite Er, Ea, !IH. reflexivity.
+Qed.
+
+Lemma not_last_code_size l1 t tab used : sid t <> tab -> 0 <= used ->
+  (forall x, In x l1 -> sid x = tab -> sbsize x <= used <= svsize x) ->
+  exists h'', shrink_last (l1 ++ [t]) tab used = (h'', 0) /\ code_size h'' = code_size (l1 ++ [t]) /\
+              map soff h'' = map soff (l1 ++ [t]) /\ map svsize h'' = map svsize (l1 ++ [t]).
+Proof.
+  intros Et Hu Hb. destruct (shrink_last_other l1 t tab used Et) as [l1' [E F]].
+  exists (l1' ++ [t]). split; [assumption|].
+  assert (G : Forall2 (fun a b => real_size b = real_size a /\ salign b = salign a /\ soff b = soff a /\ svsize b = svsize a) l1 l1').
+  { clear E. induction F as [|a b la lb Hab Hl IH]; [constructor|]. constructor; [|apply IH; intros x Hx; apply Hb; right; assumption].
+    destruct Hab as [->|[Ea ->]]; [auto|]. specialize (Hb a (or_introl eq_refl) Ea).
+    unfold real_size, set_sizes. cbn [svsize sbsize salign soff]. repeat split; lia. }
+  split; [|split].
+  - unfold code_size. rewrite (cs_walk_same_sizes true (l1 ++ [t]) (l1' ++ [t])); [reflexivity|].
+    apply Forall2_app; [|constructor; [auto|constructor]].
+    clear -G. induction G as [|a b la lb [? [? _]] _ IH]; constructor; auto.
+  - rewrite !map_app. f_equal. clear -G. induction G as [|a b la lb [_ [_ [? _]]] _ IH]; cbn [map]; [reflexivity|]. congruence.
+  - rewrite !map_app. f_equal. clear -G. induction G as [|a b la lb [_ [_ [_ ?]]] _ IH]; cbn [map]; [reflexivity|]. congruence.
 Qed.
 
 (* JitRuntime::_add: estimate = code_size() after flatten; relocate_to_base shrinks the address table (the last section)
    from its reserved virtual size to the used slots; the final size is estimate - reduction and never exceeds the estimate *)
 Lemma estimate_monotone h h' l1 t used : wf_holder h -> flatten h = (EOk, h') -> h' = l1 ++ [t] ->
-  0 <= used -> sbsize t <= used <= svsize t ->
+  (forall x, In x l1 -> sid x <> sid t) -> 0 <= used -> sbsize t <= used <= svsize t ->
   exists h'' r, shrink_last h' (sid t) used = (h'', r) /\ r = svsize t - used /\ 0 <= r /\
                 code_size h'' = code_size h' - r /\ code_size h'' <= code_size h'.
 Proof.
-  intros Hwf E El Hu0 Hu. subst h'. rewrite (shrink_last_app l1 t (sid t) used eq_refl).
+  intros Hwf E El Hid Hu0 Hu. subst h'. rewrite (shrink_last_app l1 t (sid t) used eq_refl Hid).
   set (t' := set_sizes t used used (firstn (Z.to_nat used) (sdata t))).
   exists (l1 ++ [t']), (svsize t - used). split; [reflexivity|]. split; [reflexivity|]. split; [lia|].
   destruct (flatten_flattened h _ Hwf E) as [_ _ Hwf' _ Hlne _ _ _]. pose proof W64_pos.
@@ -156,7 +191,3 @@ Proof.
     + lia.
 Qed.
 
-(* if the table is not the last section nothing changes *)
-Lemma estimate_unchanged_when_not_last l1 t tab used : sid t <> tab ->
-  shrink_last (l1 ++ [t]) tab used = (l1 ++ [t], 0).
-Proof. exact (shrink_last_other l1 t tab used). Qed.
